@@ -44,16 +44,35 @@ Print Assumptions C05_half_pipe_closes_both.
    the order [s]; a schedule entry naming a thread that cannot run is skipped. *)
 
 (* always_torn_down: whenever nothing is left to run, both connections have received Close, both
-   source closers have finished (no goroutine left), the WaitGroup is at zero, the session gauge
-   is back at its previous value and the caller has returned *)
+   directions and the caller have returned, the WaitGroup is at zero and the session gauge is back
+   at its previous value.  [closer_over st t]: the source closer has returned, or it sits inside
+   a Close that the connection's script says never returns. *)
 Theorem C05_always_torn_down :
   forall g0 su sd s,
     let c := run (init_cfg g0 su sd) s in
     finished c = true ->
     closedA c = true /\ closedB c = true /\ wg c = O /\ gauge c = g0 /\
-    clU c = CDone /\ clD c = CDone /\ main c = MDone.
+    closer_over (clU c) (up c) /\ closer_over (clD c) (down c) /\ main c = MDone /\
+    th_pc (up c) = PDone /\ th_pc (down c) = PDone.
 Proof. exact relay_torn_down. Qed.
 Print Assumptions C05_always_torn_down.
+
+(* "no goroutine is left behind", precisely: when nothing is left to run every thread of the relay
+   has returned, except a source closer blocked inside its connection's own Close — which can
+   only be the case for a connection whose Close never returns; with connections whose Close
+   returns, none is left.  (The caller returns in either case: that is why the source is closed
+   asynchronously.  The synchronous Close(dst) is assumed to return; for TCP it is bounded by
+   SetLinger(10 s).) *)
+Theorem C05_no_goroutine_left_behind :
+  forall g0 su sd s,
+    let c := run (init_cfg g0 su sd) s in
+    finished c = true ->
+    th_pc (up c) = PDone /\ th_pc (down c) = PDone /\ main c = MDone /\
+    (clU c = CDone \/ (clU c = CBlocked /\ t_csrc_blocks su = true)) /\
+    (clD c = CDone \/ (clD c = CBlocked /\ t_csrc_blocks sd = true)) /\
+    (t_csrc_blocks su = false -> clU c = CDone) /\ (t_csrc_blocks sd = false -> clD c = CDone).
+Proof. exact relay_no_goroutine_left. Qed.
+Print Assumptions C05_no_goroutine_left_behind.
 
 (* ... no schedule can get stuck before that point ... *)
 Theorem C05_no_deadlock :
